@@ -16,6 +16,10 @@ permissions of every memory page, identical cpu and vm exception flags and ident
     deviation        the default run has no breakpoint; one logging breakpoint (callback returns True) is placed at
                      each instruction boundary in turn (start, every interior boundary, the return sequence)
 
+Besides the sequence lattice, x86_32 gets two fixed counted loops (`LOOP $`, a single instruction that branches to its
+own address, and `DEC ECX; JNZ start`) from every state with a non-zero counter, with a breakpoint on every boundary in
+turn: the breakpoint on the loop instruction must be hit once per iteration on both backends.
+
 A disagreement is attributed to the instruction that completes the shortest disagreeing prefix of the program
 (the program lattice is prefix-closed), and, for breakpoint runs that disagree although the breakpoint-free run
 agrees, to the instruction the breakpoint sits on.
@@ -62,6 +66,16 @@ def JCC_SKIP_NEXT(arch, prog, i, lens):
     return bytes([0x74, skip])
 
 
+def X86_LOOP_SELF(arch, prog, i, lens):
+    """x86: LOOP $ - decrement the counter and branch to the instruction's OWN address while it is not zero."""
+    return bytes([0xE2, 0xFE])
+
+
+def X86_JNZ_START(arch, prog, i, lens):
+    """x86: JNZ back to the first instruction of the program."""
+    return bytes([0x75, (-(sum(lens[:i]) + 2)) & 0xFF])
+
+
 def MIPS_BEQ(arch, prog, i, lens):
     """mips32: BEQ A1, ZERO to the JR RA of the return sequence; the next instruction sits in its delay slot and the
     ADDIU that opens the return sequence is skipped when the branch is taken from an earlier position."""
@@ -89,7 +103,14 @@ SPECS = {
             ("REP-MOVSB", "REP MOVSB", True),
             ("XCHG-mem", "XCHG DWORD PTR [EBX], EAX", True),
             ("POP-mem", "POP DWORD PTR [EBX]", True),
+            # loop instructions: only used in the fixed `loops` programs below, never in the sequence lattice (with a
+            # zero counter they iterate 2^32 times, and the chained execution of compiled blocks cannot be interrupted)
+            ("LOOP-self", X86_LOOP_SELF, False),
+            ("DEC-cnt", "DEC ECX", False),
+            ("JNZ-start", X86_JNZ_START, False),
         ],
+        "seq": 14,                          # the sequence lattice uses the first 14 entries
+        "loops": [(14,), (15, 16)],         # LOOP $ (a single instruction branching to itself) / DEC ECX; JNZ start
         "end": ["RET"],
         "acc": "EAX", "cnt": "ECX", "op2": "EDX", "ptr": "EBX", "src": "ESI", "dst": "EDI",
         "ret": "stack",
@@ -295,7 +316,7 @@ def programs(arch, tier):
     import itertools
     spec = SPECS[arch]
     b = BOUNDS[tier][arch]
-    n = len(spec["alphabet"])
+    n = spec.get("seq", len(spec["alphabet"]))
     out = []
     for length in range(0, max(b["full_bp"], b["full"], b["sub_bp"], b["sub"]) + 1):
         for prog in itertools.product(range(n), repeat=length):
@@ -308,6 +329,9 @@ def programs(arch, tier):
             with_bp = (length <= b["full_bp"] or (in_sub and length <= b["sub_bp"]) or
                        (length == 1 and prog[0] in b["extra_bp"]))
             out.append((prog, with_bp))
+    # counted loops, with a breakpoint on every boundary in turn (the loop instruction itself included): a backward
+    # branch must return to the run loop on every iteration on both backends
+    out += [(tuple(p), True) for p in spec.get("loops", ())]
     return out
 
 
@@ -411,10 +435,20 @@ def judge(arch, prog, state_i, kind, bp):
 
 def cases(arch, tier, prog, with_bp):
     """Every (state, kind, breakpoint) of one program."""
+    spec = SPECS[arch]
     nstates = BOUNDS[tier][arch]["states"]
-    has_mem = any(SPECS[arch]["alphabet"][i][2] for i in prog)
+    has_mem = any(spec["alphabet"][i][2] for i in prog)
     kinds = KINDS + (EXTRA_KINDS if has_mem else ())
-    out = [(s, kind, None) for s in range(nstates) for kind in kinds]
+    states = list(range(nstates))
+    if tuple(prog) in [tuple(p) for p in spec.get("loops", ())]:
+        # loops: only states with a non-zero counter (termination), one memory map (they do not touch data memory),
+        # the breakpoint deviations for every such state (the number of iterations is what matters)
+        states = [s for s in states if spec["states"][s][1] != 0]
+        kinds = ("rw",)
+        out = [(s, kind, None) for s in states for kind in kinds]
+        out += [(s, kind, bp) for s in states for kind in kinds for bp in range(len(prog) + 1)]
+        return out
+    out = [(s, kind, None) for s in states for kind in kinds]
     if with_bp:
         s = min(BP_STATE.get(arch, nstates - 1), nstates - 1)
         out += [(s, kind, bp) for kind in kinds for bp in range(len(prog) + 1)]
@@ -510,7 +544,8 @@ def run(ctx):
                      "memory_maps_for_programs_with_a_memory_instruction": list(EXTRA_KINDS),
                      "per_arch": {a: {k: v for k, v in BOUNDS[tier][a].items() if k not in ("sub_idx", "extra_bp")} for a in archs},
                      "extra_breakpoint_programs": {a: [SPECS[a]["alphabet"][i][0] for i in BOUNDS[tier][a]["extra_bp"]] for a in archs},
-                     "alphabets": {a: [e[0] for e in SPECS[a]["alphabet"]] for a in archs},
+                     "alphabets": {a: [e[0] for e in SPECS[a]["alphabet"][:SPECS[a].get("seq")]] for a in archs},
+                     "loop_programs": {a: [[SPECS[a]["alphabet"][i][0] for i in p] for p in SPECS[a].get("loops", ())] for a in archs},
                      "reduced_alphabets": {a: [SPECS[a]["alphabet"][i][0] for i in BOUNDS[tier][a]["sub_idx"]] for a in archs},
                      "x86_32_length3_alphabet": [SPECS["x86_32"]["alphabet"][i][0] for i in SUB3_X86_32]}
     return cov
